@@ -170,6 +170,7 @@ impl<W, R, T> Drop for ManagedXValue<W, R, T> {
 }
 
 impl<W, R, T> ManagedXValue<W, R, T> {
+    #[cfg_attr(xray_verif, track_caller)]
     pub(crate) fn new(value: XValue<W, R, T>, runtime: RTCell<W, R, T>) -> RuntimeResult<Rc<Self>> {
         let size = runtime.allocate(&value)?;
         Ok(Rc::new(Self {
@@ -211,6 +212,7 @@ impl<W, R, T> Drop for ManagedXError<W, R, T> {
 }
 
 impl<W, R, T> ManagedXError<W, R, T> {
+    #[cfg_attr(xray_verif, track_caller)]
     pub(crate) fn new<E: Into<String>>(
         error: E,
         runtime: RTCell<W, R, T>,
